@@ -130,6 +130,73 @@ def timeout_cases(tier):
             out.append(Case("to_%s_%d" % (name, D), lines, dict(kind="timeout", D=D * 1000, shape=name, counted=kind)))
     return out
 
+SWEEP_RULES = [
+    ("dict", 'for any k, v in pe.version_info : (k == "zz")'),
+    ("dict-hit", 'for any k, v in pe.version_info : (v contains "v")'),
+    ("array", 'for any s in pe.sections : (s.name == "zz")'),
+    ("range", "for any i in (1..3) : (i == 7)"),
+    ("enum", "for any i in (1, 2, 3) : (i == 7)"),
+    ("strset", "for any of them : (@ > 100000)"),
+    ("textset", 'for any s in ("a", "b") : (s == "c")'),
+    ("of", "2 of them in (0..1000)"),
+    ("nested", "for any i in (1..2) : (for any s in pe.sections : (for any k, v in pe.version_info : (i == 9)))"),
+    ("call", 'pe.imphash() == "x" or pe.section_index(".rdata") == 99 or pe.exports("nope")'),
+]
+
+
+def stack_sweep_cases(tier):
+    """every evaluation-stack size S from 1 to a little beyond what each iterator-based condition needs (the condition is
+    wrapped in d 'true and (...)' levels that keep d values on the stack): the scan returns ERROR_EXEC_STACK_OVERFLOW up
+    to some S0 and the reference verdict from S0 on; no size may crash (the iterators push 1-3 values after checking
+    for room)"""
+    from vlib import m_synth
+    pe = m_synth.pe(nversion=5, nsections=3, imports=(2, 3), nexports=4)
+    out = []
+    depths = (0, 7, 24) if tier == "quick" else (0, 1, 2, 3, 7, 15, 24, 40)
+    for name, cond in SWEEP_RULES:
+        for d in depths:
+            expr = cond
+            for _ in range(d):
+                expr = "true and (%s)" % expr
+            text = 'import "pe"\nrule sweep { strings: $_a = "MZ" $_b = "synth" $_c = "zqzq" condition: %s }\n' % expr
+            for S in list(range(1, d + 26)) + [d + 40, 16384]:
+                lines = ["cfg stack %d" % S, "cnew 0", "cadd 0 - " + hx(WITNESS + text), "crules 0 0", "buf 0 " + hx(pe + WBUF),
+                         "scan r0 mem 0 0 0 -", "cfg stack 16384", "cnew 1", "cadd 1 - " + hx(WITNESS), "crules 1 1",
+                         "buf 1 " + hx(WBUF), "scan r1 mem 1 0 0 -"]
+                out.append(Case("sw_%s_%d_%d" % (name, d, S), lines, dict(kind="sweep", rule=name, depth=d, S=S, what="stack %d, %s at depth %d" % (S, name, d))))
+    return out
+
+
+def evaluate_sweep(chk, cases, results, stats):
+    groups = {}
+    for c in cases:
+        r = results[c.cid]
+        if r.status != "ok" or len(r.ops("scan")) < 2:
+            continue
+        sc = r.ops("scan")[0]
+        verd = {mm[1]: mm[0] for mm in sc["msgs"] if mm[0] in (1, 2)}
+        groups.setdefault((c.meta["rule"], c.meta["depth"]), []).append((c.meta["S"], sc["rc"], verd, c))
+    for (rule, depth), lst in groups.items():
+        lst.sort(key=lambda t: t[0])
+        ref = lst[-1]
+        if ref[1] != 0:
+            chk.violation("stack-sweep:largest-stack-fails", dict(rule=rule, depth=depth, rc=ref[1], script=ref[3].script()[-2000:]))
+            continue
+        seen_ok = False
+        for S, rc, verd, c in lst:
+            w = dict(rule=rule, depth=depth, stack_size=S, rc=rc, script=c.script()[-2000:])
+            if rc == 0:
+                seen_ok = True
+                if verd != ref[2]:
+                    chk.violation("stack-sweep:verdict-depends-on-stack-size", dict(w, verdicts=verd, reference=ref[2]))
+            elif rc == E_STACK:
+                if seen_ok:
+                    chk.violation("stack-sweep:overflow-above-a-sufficient-size", w)
+            else:
+                chk.violation("stack-sweep:unexpected-rc%d" % rc, w)
+        stats["limits"].add("evaluation stack x iterators")
+        stats["sweep_groups"] = stats.get("sweep_groups", 0) + 1
+
 
 def evaluate(chk, case, res, stats):
     m = case.meta
@@ -148,6 +215,14 @@ def evaluate(chk, case, res, stats):
     scans = res.ops("scan")
     cadds = res.ops("cadd")
     stats["cases"] += 1
+    if m["kind"] == "sweep":
+        last = scans[-1]
+        verd = {mm[1]: mm[0] for mm in last["msgs"] if mm[0] in (1, 2)}
+        if last["rc"] != 0 or verd.get("default:witness") != 1:
+            chk.violation("library-unusable-after-limit", dict(w, rc=last["rc"], verdicts=verd))
+        else:
+            stats["nontrivial"].add(case.cid)
+        return
     if m["kind"] == "compile":
         ca = cadds[0]
         ok = ca["errors"] == 0 and res.ops("crules")[0]["rc"] == 0
@@ -265,18 +340,22 @@ def main(args):
     tmm = match_limit_cases()
     if args.tier == "quick":
         tmm = [c for c in tmm if c.cid in ("tmm1000000_continue", "tmm1000001_continue", "tmm1000001_refuse", "tmm999999_continue")]
+    sweep = stack_sweep_cases(args.tier)
+    cases += sweep
     results = harness.run_cases(exe, cases, "c15", cpu=90, batch=6)
     results.update(harness.run_cases(exe, tmm, "c15t", cpu=180, batch=1))
     stats = dict(cases=0, nontrivial=set(), samples=[], limits=set(), timeout_scans=0, clock_queries=0, smoke=[])
     for c in cases + tmm:
         evaluate(chk, c, results[c.cid], stats)
+    evaluate_sweep(chk, sweep, results, stats)
     real_clock_smoke(chk, exe, stats, 2 if args.tier == "quick" else 3)
     return chk.finish(
         evaluations=len(cases) + len(tmm) + len(stats["smoke"]),
         distinct_nontrivial=len(stats["nontrivial"]),
         rule="for every limit L (identifier length 128, loop nesting 4, strings per rule [3 settings], lexer buffer 8192, "
              "integer literals around 2^63 incl. KB/MB/hex/octal, regexp split ids 128, include depth 16, evaluation "
-             "stack [6 settings], regexp fibers 1024, matches per string 1,000,000): inputs at L-1, L, L+1 and far "
+             "stack [6 settings; plus every size 1..d+25 for ten iterator/loop/call conditions nested d deep: overflow error up "
+             "to some size, the reference verdict from there on, never a crash], regexp fibers 1024, matches per string 1,000,000): inputs at L-1, L, L+1 and far "
              "beyond, expected accept/reject/error code/warning message from the table; every case carries an "
              "unrelated witness rule and ends with a sentinel compile+scan. Timeouts: 4 long-running rule shapes "
              "(4 nested loops over 10^12 iterations, module calls in a 10^6 loop, 4 MB of data, quadratic loop over "
